@@ -19,6 +19,11 @@ func init() {
 func dtlcpScript(s scen) (string, string) {
 	st := pki.Std()
 	scfg := dServer(s.pol, s.suite, st.Root.Pool, pki.Now, nil)
+	// the scripted client steps at its own pace: the real server must never retransmit or
+	// fragment mid-case (the watchdog below bounds a case that waits for input)
+	scfg.InitialRetransmitTimeout = time.Hour
+	scfg.MaxRetransmitTimeout = time.Hour
+	scfg.PMTU = 16000
 	ce, se := pair.PacketPipe()
 	defer ce.Close()
 	defer se.Close()
